@@ -574,12 +574,57 @@ def polars_full_join_keys_rule(program, res, rule="C16-S4"):
 
 def _s4(program, res):
     pj = program.method("pandas_base", "PandasModelBase", "_natural_join_step", inherited=False)
-    txt = unparse(pj.node)
-    if "pd.merge(" in txt and "dropna" not in txt and "isnull" not in txt.split("pd.merge(")[0]:
+    res.analysed(pj)
+    g = cfgmod.build(pj.node)
+    merges = [c for c in ast.walk(pj.node) if isinstance(c, ast.Call) and isinstance(c.func, ast.Attribute) and c.func.attr == "merge"]
+    if not merges:
+        raise AnalysisError("Pandas _natural_join_step: the merge call was not found")
+    mc = merges[0]
+    mnode = g.containing_node(mc)
+    kws = {kw.arg: kw.value for kw in mc.keywords}
+    sides = {"left": kws.get("left"), "right": kws.get("right")}
+    keys = {"left": unparse(kws.get("left_on")) if kws.get("left_on") is not None else "", "right": unparse(kws.get("right_on")) if kws.get("right_on") is not None else ""}
+    problems = []
+    set_aside = {}
+    for side, arg in sides.items():
+        if not isinstance(arg, ast.Name):
+            raise AnalysisError("Pandas _natural_join_step: merge(left=…, right=…) are not plain names")
+        # mask = <frame>[<keys>].isnull()...   ;   aside = <frame>.loc[mask, :]   ;   <frame> = <frame>.loc[~mask, :]
+        masks = {st.targets[0].id for st in ast.walk(pj.node) if isinstance(st, ast.Assign) and isinstance(st.targets[0], ast.Name)
+                 and any(isinstance(c, ast.Call) and isinstance(c.func, ast.Attribute) and c.func.attr in ("isnull", "isna") for c in ast.walk(st.value))
+                 and arg.id in {x.id for x in ast.walk(st.value) if isinstance(x, ast.Name)} and keys[side] in unparse(st.value)}
+        filtered = [st for st in ast.walk(pj.node) if isinstance(st, ast.Assign) and unparse(st.targets[0]) == arg.id and g.has_node(st)
+                    and any(isinstance(u, ast.UnaryOp) and isinstance(u.op, ast.Invert) and isinstance(u.operand, ast.Name) and u.operand.id in masks for u in ast.walk(st.value))
+                    and (g.dominates(g.node_of(st).id, mnode.id) or mnode.id in g.reachable_from(g.node_of(st).id))]
+        dropped = [st for st in ast.walk(pj.node) if isinstance(st, ast.Assign) and unparse(st.targets[0]) == arg.id
+                   and any(isinstance(c, ast.Call) and isinstance(c.func, ast.Attribute) and c.func.attr == "dropna" for c in ast.walk(st.value))]
+        if not (filtered or dropped):
+            problems.append(side)
+            continue
+        aside = [st.targets[0].id for st in ast.walk(pj.node) if isinstance(st, ast.Assign) and isinstance(st.targets[0], ast.Name) and st.targets[0].id != arg.id
+                 and any(isinstance(sub, ast.Subscript) and any(isinstance(x, ast.Name) and x.id in masks for x in ast.walk(sub.slice)) for sub in ast.walk(st.value))
+                 and not any(isinstance(u, ast.UnaryOp) and isinstance(u.op, ast.Invert) for u in ast.walk(st.value))]
+        set_aside[side] = aside
+    if problems:
         res.fail_at("C16-S4", pj, "pandas-merge-matches-null-keys",
-                    "pandas.merge matches rows whose keys are both null; SQL joins never match null keys (no null-key guard before the merge)")
+                    f"pandas.merge matches rows whose keys are both null; SQL joins never match null keys (no null-key rows are taken out of the {' / '.join(problems)} frame before the merge)", mc)
     else:
-        res.ok("C16-S4", "Pandas: null keys are excluded before pd.merge")
+        res.ok("C16-S4", "Pandas: rows with a null key are taken out of both frames before pd.merge")
+        # ... and come back unmatched for the join types that keep them
+        want = {"left": {"left", "outer"}, "right": {"right", "outer"}}
+        for side, names in set_aside.items():
+            back = False
+            for n in g.stmt_nodes(("stmt",)):
+                if any(nm in {x.id for x in ast.walk(n.stmt) if isinstance(x, ast.Name)} for nm in names) and mnode.id in g.dominators().get(n.id, set()) | {mnode.id} \
+                        and n.id in g.reachable_from(mnode.id):
+                    conds = " ".join(unparse(b.cond) for b, lab in g.lexical_guards(n) if lab is True)
+                    if all(repr(w) in conds.replace('"', "'") for w in want[side]):
+                        back = True
+            if back:
+                res.ok("C16-S4", f"Pandas: the {side} rows with a null key are re-attached unmatched for {sorted(want[side])} joins")
+            else:
+                res.fail_at("C16-S4", pj, f"pandas-null-key-rows-lost:{side}",
+                            f"the {side} rows with a null key are taken out before the merge but not re-attached for {sorted(want[side])} joins: a {side} / full join loses them", mc)
     polars_full_join_keys_rule(program, res)
     fj = program.method("SQLite", "SQLiteModel", "_emit_full_join_as_complex", inherited=False)
     t = unparse(fj.node)
